@@ -16,9 +16,9 @@ TIERS = {"quick": {"runs": 3200, "wall_cap": 600}, "thorough": {"runs": 80000, "
 RULE = (
     "each evaluation is one seeded history (<=40 quick / <=70 thorough steps) of quad add / addN / triple add / remove by triple pattern (all "
     "graphs) / remove by quad pattern / view.add / view.remove / graph creation / remove_graph over <=4 graph names (IRI, BNode with the same "
-    "string as an IRI, auto-generated, default), issued through a Dataset (default_union on or off), a ConjunctiveGraph and Graph views on one "
+    "string as an IRI, auto-generated, default), issued through a Dataset (default_union on or off), a second Dataset object, a ConjunctiveGraph and Graph views on one "
     "Memory store; after every step quads(), graphs(), every view, quad membership (name as identifier and as Graph, incl. empty and unknown "
-    "graphs), triples(context=), quads(pattern) and the merged view are compared with a dict name -> set model; distinct = distinct trace "
+    "graphs), triples(context=), triples_choices per graph, graphs(triple), quads(pattern), lazy quads() readers and the merged view are compared with a dict name -> set model; distinct = distinct trace "
     "digest; non-trivial = at least 4 effective mutations touching at least 2 graphs"
 )
 REAL = ["rdflib.graph.Dataset", "rdflib.graph.ConjunctiveGraph", "rdflib.graph.Graph (views)", "rdflib.plugins.stores.memory.Memory"]
